@@ -1,6 +1,8 @@
 import CookModel.Lemmas.DiagPlaceDocName
 import CookModel.Lemmas.DiagExactComp
 import CookModel.Lemmas.RoundtripStep
+import CookModel.Lemmas.RoundtripShort
+import CookModel.Lemmas.DiagPlaceFam
 /-
   C07, arbitrary placement: `invalid-single-word-name` as a placement piece (`c07s_` prefix, wave 10).  A marker
   `@` / `#` / `~` that starts NO component — no `{` before the next marker / the end of the block, and the token after
@@ -170,5 +172,89 @@ theorem c07s_single_word_pieceAt (cs : CharSpec) (e : Ext) (tmS : Tok) (tlS rest
     (c07s_head_pred ks.head_kind (fun k => isModStart k = false ∧ isShortK k = false) h0) hv
   rw [c07s_swEvs_congr T tpre _ _ ks.head_kind] at this
   exact this
+
+/-! ### the single-word timer `~name` (no braces) -/
+
+theorem c07s_headEvs_nil (W : List Tok) (hW : ∀ t ∈ W, wordKind t.kind = true) (e : Ext) :
+    c07w_timerHeadEvs (α := α) [] W e = [] := by
+  have hn : W.findIdx? (fun t => t.kind == .or) = none := by
+    rw [List.findIdx?_eq_none_iff]
+    intro t ht
+    have := hW t ht
+    cases hk : t.kind <;> simp [wordKind, hk] at this ⊢
+  unfold c07w_timerHeadEvs
+  rw [hn]
+  cases e.has Gen.EXT_COMPONENT_ALIAS <;> simp
+
+/-- the cut of a single-word component `marker W` (no modifier tokens): `W` word / number tokens, the next token is
+    none of them, no `{` before the next marker -/
+theorem c07s_cut_short (k : TK) (s : BP α) (A : List Tok) (tm : Tok) (W rest : List Tok) (hk : tm.kind = k)
+    (ht : s.toks = A ++ ((tm :: W) ++ rest)) (hc : s.cur = A.length)
+    (hW : ∀ t ∈ W, wordKind t.kind = true) (hne : W ≠ [])
+    (hR : ∀ t, rest.head? = some t → wordKind t.kind = false) (hnb : noBraceFirst rest = true) :
+    Cut k s [] ⟨W, none, none⟩ { s with cur := A.length + 1 } { s with cur := A.length + 1 }
+      { s with cur := A.length + (tm :: W).length } := by
+  have e1 : s.toks = A ++ tm :: (W ++ rest) := by rw [ht]; simp
+  have e2 : s.toks = (A ++ [tm]) ++ (W ++ rest) := by rw [e1]; simp
+  have h1 := consumeK_split_some k s A tm _ e1 hc hk
+  have hget : ({ s with cur := A.length + 1 } : BP α).toks[({ s with cur := A.length + 1 } : BP α).cur]? =
+      (W ++ rest).head? := rt_getElem_cur (s := ({ s with cur := A.length + 1 } : BP α)) e2 (by simp)
+  have h2 : modifiersP ({ s with cur := A.length + 1 } : BP α) = (([] : List Tok), { s with cur := A.length + 1 }) := by
+    apply modifiersP_noop
+    intro t ht'
+    rw [hget] at ht'
+    cases W with
+    | nil => exact absurd rfl hne
+    | cons w ws =>
+      simp only [List.cons_append, List.head?_cons, Option.some.injEq] at ht'
+      subst ht'
+      have := hW w (by simp)
+      cases hk' : w.kind <;> simp [wordKind, hk', isModStart, isModifierTok] at this ⊢
+  have h3 := compBody_short ({ s with cur := A.length + 1 } : BP α) (A ++ [tm]) W rest e2 (by simp) hW hne hR hnb
+  have hlen : (A ++ [tm]).length + W.length = A.length + (tm :: W).length := by
+    simp only [List.length_append, List.length_cons, List.length_nil]; omega
+  rw [hlen] at h3
+  exact ⟨⟨tm, h1⟩, h2, h3⟩
+
+/-- **a single-word timer `~name`, wherever it stands and whatever follows it** (`~zt`, `~zt(note)`): `W` word / number
+    tokens, the next token none of them, no `{` before the next marker.  One iteration consumes exactly `~ W` and
+    pushes EXACTLY `note-not-allowed:timer` iff `(` … `)` follows, then `timer-missing-quantity` (labelled with the
+    position at the end of the name) under TIMER_REQUIRES_TIME, otherwise `timer-neither-name-nor-quantity` iff the
+    name is blank; then the timer named `W`, on the byte range of `~ W`. -/
+theorem c07s_timer_short_piece (T A rest : List Tok) (cs : CharSpec) (e : Ext) (tm : Tok) (W : List Tok)
+    (hT : T = A ++ ((tm :: W) ++ rest)) (hw : WF T) (hk : tm.kind = .tilde)
+    (hW : ∀ t ∈ W, wordKind t.kind = true) (hne : W ≠ [])
+    (hR : ∀ t, rest.head? = some t → wordKind t.kind = false) (hnb : noBraceFirst rest = true) :
+    PlPieceAt (α := α) T cs e A ⟨tm :: W, fun evs =>
+      evs = c07w_noteEvs T (A.length + (tm :: W).length) ++
+        c07w_timerFinishEvs (offAt T (A.length + 1)) ⟨W, none, none⟩ (buildText (offAt T (A.length + 1)) W) cs e ++
+        [.timer ⟨⟨if (buildText (offAt T (A.length + 1)) W).isTextEmpty cs then none
+            else some (buildText (offAt T (A.length + 1)) W),
+          c07w_timerFinishQty (buildText (offAt T (A.length + 1)) W) cs e⟩,
+          ⟨offAt T A.length, offAt T (A.length + (tm :: W).length)⟩⟩]⟩ := by
+  apply c07p_piece_of_timer T A _ rest cs e hT hw tm _ rfl hk
+  intro s h1 h2 h3 h4 h5
+  subst h1 h2 h3
+  have hcut := c07s_cut_short .tilde s A tm W rest hk hT h5 hW hne hR hnb
+  have hrun : timerP s = timerTail (offAt s.toks A.length) (offAt s.toks (A.length + (tm :: W).length))
+      (offAt s.toks (A.length + 1)) [] ⟨W, none, none⟩ { s with cur := A.length + (tm :: W).length } := by
+    rw [timerP_cut hcut]
+    simp only [curOff, h5]
+  have hrun2 := hrun
+  rw [c07w_timerTail_run] at hrun2
+  have ht := c07w_timerRest2_none (α := α) (offAt s.toks A.length) (offAt s.toks (A.length + (tm :: W).length))
+    (offAt s.toks (A.length + 1)) ⟨W, none, none⟩
+    (pushAll (c07w_noteEvs s.toks (A.length + (tm :: W).length))
+      (pushAll (c07w_timerHeadEvs [] W s.ext) ({ s with cur := A.length + (tm :: W).length } : BP α))) rfl
+  unfold Sat at ht
+  rw [← hrun2] at ht
+  obtain ⟨hpu, hr⟩ := ht
+  simp only [(c07w_pushAll_cs _ _).1, (c07w_pushAll_cs _ _).2] at hpu hr
+  have hp := ((c07w_pushed_setCur s (A.length + (tm :: W).length)).trans
+    ((pushAll_pushed _ _).trans (pushAll_pushed _ _))).trans hpu
+  refine ⟨_, _, hr, hp, ?_, ?_⟩
+  · rw [hrun]
+    exact c07p_timerTail_cur ..
+  · simp [c07s_headEvs_nil W hW]
 
 end Cook
